@@ -293,6 +293,9 @@ func (s *Sim) taskMain(t *Task, fn func()) {
 
 type abortRun struct{}
 
+// maxTasks bounds the goroutines of one run (see Go).
+const maxTasks = 4000
+
 func trimStack(st string) string {
 	lines := strings.Split(st, "\n")
 	var out []string
@@ -692,6 +695,14 @@ func Go(site string, lib bool, fn func()) {
 		return
 	}
 	s.spawn(site, lib, fn)
+	if len(s.tasks) > maxTasks {
+		// a run of these harnesses needs a few dozen goroutines: thousands mean a spawn loop that runs
+		// away (bounded liveness: whatever it is working towards is not going to happen in this run)
+		if s.fail == nil {
+			s.fail = &Failure{Check: "task-explosion", Msg: fmt.Sprintf("%d goroutines have been started in this run, the last ones at %s: a spawn loop is running away", len(s.tasks), site), Step: s.steps}
+		}
+		panic(abortRun{})
+	}
 	live := 0
 	for _, t := range s.tasks {
 		if t.state != Done {
